@@ -28,6 +28,8 @@ def canon(d):
 from common import CORPUS
 from gen import sdl
 from corr import C11_extend
+from corr import C11_additional
+from corr import C11_inprogress
 
 PROPERTY = "C11"
 RULE = ("generated type-system documents: declared content (6 kinds, wrappers, defaults of every input kind, descriptions, "
@@ -35,12 +37,21 @@ RULE = ("generated type-system documents: declared content (6 kinds, wrappers, d
         "extend blocks; ALL definition orders for documents of <=4 definitions, sampled orders otherwise; ignore_extensions on/off; "
         "additional_types; 38 labelled single-defect invalid documents; the public extend_schema(build(A), B, strict): generated B (new types, "
         "extensions of old and new types in every order) and a deterministic block of 36 named extension documents x strict/lax (one per "
-        "branch of _collect_extensions and per rejection of the extension pass). non-trivial = distinct document text that was built "
-        "(>=2 definitions) or rejected after parsing")
+        "branch of _collect_extensions and per rejection of the extension pass); 39 named additional_types probes (override, last-wins, transitive "
+        "closure, specified-name shadowing, extension blocks of supplied types; corr/C11_additional.py); schema directives counted per element "
+        "(build_schema and the two-phase build on one Document); 20 named in-progress probes + a targeted stream of mutually recursive input "
+        "objects with defaults and extensions, and every batch document, against the exact model of the in-progress bookkeeping "
+        "(corr/C11_inprogress.py). non-trivial = distinct document text that was built (>=2 definitions) or rejected after parsing")
 ASSUMPTIONS = [
     "type registry and directive registry are compared as sets (sorted by name): the property does not state an order of schema.types",
     "only the class of a rejection is compared (library schema/SDL/syntax error vs anything else), never messages",
-    "additional_types are closed: they reference only built-in scalars or other supplied types",
+    "additional_types are closed: they reference only built-in scalars or other supplied types; a supplied scalar parses literals as the "
+    "stand-in scalar does; python_name == name. Outside the model (measured, probe supplied-default-completed-by-other-extension, covered by the "
+    "exact model buildP): the stored default VALUES of a supplied type's own fields are completed when ANOTHER supplied input object is extended; "
+    "a default written in `extend input <supplied>` that needs a field which another `extend input <supplied>` block adds",
+    "exact model buildP (SdlInProgress.lean): the retry of `_default_value` for a default written in an extension block is evaluated by name over "
+    "the extended types unless it touches a type in progress; no theorem is about buildP, it is the executable reference for the shapes the "
+    "theorems exclude (SelfDefaults / Props/C11_hide.lean)",
     "schema validation (Schema.validate, property C13) is a parameter of the model: documents rejected by validation only are "
     "compared on the builder's result with validation disabled",
     "default literals have acyclic default dependencies (finding S1b otherwise)",
@@ -61,8 +72,10 @@ TRUSTED = [
     "were built from (schemas assembled from Python objects are outside the model); `_collect_extensions` is also read directly "
     "(private function) to compare WHAT it keeps with the model's collectExtensions",
 ]
-EXPLANATION = ("model = Sdl.lean (collect, build, extend, type map closure) + SdlExtend.lean (public extend_schema: _collect_extensions "
-               "strict/lax, new definitions, roots kept); spec = Spec/SdlSpec.lean (Declared, SdlValid)")
+EXPLANATION = ("model = Sdl.lean (collect, build, extend, type map closure) + SdlAdditional.lean (buildA: what the builder does with "
+               "additional_types; the driver's `build`) + SdlExtend.lean (public extend_schema: _collect_extensions strict/lax, new definitions, "
+               "roots kept) + SdlInProgress.lean (buildP: the extension pass with the real _extended_cache / _in_progress bookkeeping, driver op "
+               "`build_p`); spec = Spec/SdlSpec.lean (Declared, SdlValid), Props/C11_additional.lean (DeclaredWith)")
 
 
 # ---------------------------------------------------------------------------
@@ -605,6 +618,83 @@ def run_schema_directives(ctx):
                 ctx.fail("schema-directives:%s" % out[1], "schema directive arguments: %s instead of a schema/SDL error" % out[1], detail)
 
 
+def run_schema_directives_once(ctx):
+    """`schema_directives=[…]`: every application of a schema directive written in the SDL is applied EXACTLY ONCE — by
+    build_schema, and by the two-phase build the code describes (build_schema(doc, ignore_extensions=True) then
+    extend_schema(base, doc, strict=False) with the SAME parsed Document; Lean: two_phase_directives_once). The directive
+    appends '!' to the description of the element it is written on, so the number of applications is part of the dumped
+    content (descriptions are content of C11). Deterministic, no ctx.rng."""
+    from py_gql import build_schema
+    from py_gql.lang import parse
+    from py_gql.sdl import SchemaDirective, extend_schema
+
+    class Mark(SchemaDirective):
+        definition = "mark"
+
+        def _m(self, x):
+            x.description = (x.description or "") + "!"
+            return x
+        on_object = on_field = on_argument = on_interface = on_union = on_enum = on_enum_value = on_input_object = on_input_field = on_scalar = _m
+
+    head = ("directive @mark on OBJECT | FIELD_DEFINITION | ARGUMENT_DEFINITION | INTERFACE | UNION | ENUM | ENUM_VALUE | INPUT_OBJECT | "
+            "INPUT_FIELD_DEFINITION | SCALAR\n")
+    docs = {
+        "object": 'type Query @mark { q: Int }\nextend type Query { x: Int }',
+        "field": 'type Query { "d" q: Int @mark }\nextend type Query { x: Int }',
+        "argument": 'type Query { q("d" a: Int @mark): Int }\nextend type Query { x: Int }',
+        "enum-value": 'type Query { q: E }\nenum E { "d" A @mark B }\nextend enum E { C }',
+        "input-field": 'type Query { q(i: I): Int }\ninput I { "d" a: Int @mark }\nextend input I { b: Int }',
+        "interface-union-scalar": 'type Query implements N { q: U s: S }\ninterface N @mark { q: U }\nunion U @mark = Query\nscalar S @mark\nextend type Query { x: Int }',
+        "extension-block": 'type Query { q: Int }\nextend type Query @mark { "d" x: Int @mark }',
+        "extension-and-definition": '"t" type Query @mark { q: Int @mark }\nextend type Query { x(a: Int @mark): Int @mark }\nenum E { A @mark }\nextend enum E @mark { B @mark }',
+        "untargeted-type-kept": 'type Query { q: T }\n"t" type T @mark { "d" a: Int @mark }\nextend type Query { x: Int }',
+    }
+
+    def marks(dump):
+        out = {}
+
+        def put(path, d):
+            if d and d.endswith("!"):
+                out[path] = len(d) - len(d.rstrip("!"))
+        for t in dump["types"]:
+            put(t["name"], t.get("desc"))
+            for f in t.get("fields", []):
+                put("%s.%s" % (t["name"], f["name"]), f.get("desc"))
+                for a in f.get("args", []):
+                    put("%s.%s.%s" % (t["name"], f["name"], a["name"]), a.get("desc"))
+            for f in t.get("input_fields", []):
+                put("%s.%s" % (t["name"], f["name"]), f.get("desc"))
+            for v in t.get("values", []):
+                put("%s.%s" % (t["name"], v["name"]), v.get("desc"))
+        return out
+    for site, body in docs.items():
+        text = head + body
+        expected_marks = text.count("@mark") - 1        # every application written (the definition line has one `@mark`)
+        for mode in ("build_schema", "two-phase"):
+            ctx.count()
+            ctx.nontrivial("schema-directives-once:%s:%s" % (site, mode))
+            detail = {"sdl": text, "schema_directives": "mark", "mode": mode, "label": "schema-directives-once"}
+            try:
+                if mode == "build_schema":
+                    s = build_schema(text, schema_directives=[Mark])
+                else:
+                    doc = parse(text, allow_type_system=True)
+                    base = build_schema(doc, ignore_extensions=True, schema_directives=[Mark])
+                    s = extend_schema(base, doc, strict=False, schema_directives=[Mark])
+                got = marks(dump_schema(s, sort=True))
+            except Exception as e:  # noqa
+                ctx.fail("schema-directives-once:%s:%s:%s" % (site, mode, type(e).__name__), "schema directive build raises", detail)
+                continue
+            ctx.stat("schema-directives-once:%s" % mode)
+            twice = sorted(k for k, n in got.items() if n > 1)
+            if twice:
+                ctx.fail("schema-directives:applied-twice:%s:%s" % (site, mode),
+                         "a schema directive written once in the SDL is applied more than once: " + ", ".join(twice), dict(detail, marks=got))
+            elif sum(got.values()) != expected_marks:
+                ctx.fail("schema-directives:not-applied:%s:%s" % (site, mode),
+                         "%d applications written, %d applied" % (expected_marks, sum(got.values())), dict(detail, marks=got))
+
+
 def run_source_forms(ctx):
     """hunt3 C11/2: `bytes` is a source form of the library (`parse`, `graphql`, `validate` take it): build_schema and
     extend_schema must build the same schema from the encoded text (the `raise` of `_document_ast` was missing)."""
@@ -928,6 +1018,11 @@ def _live_additional(wire):
         elif k == "object":
             reg[n] = S.ObjectType(n, (lambda t=t: [S.Field(f["name"], lazy(f["type"]), description=f.get("desc"),
                                                            deprecation_reason=f.get("deprecated")) for f in t["fields"]]), description=d)
+        elif k == "interface":
+            reg[n] = S.InterfaceType(n, (lambda t=t: [S.Field(f["name"], lazy(f["type"]), description=f.get("desc"),
+                                                              deprecation_reason=f.get("deprecated")) for f in t["fields"]]), description=d)
+        elif k == "union":
+            reg[n] = S.UnionType(n, (lambda t=t: [reg[m] for m in t["members"]]), description=d)
         else:
             continue
         out.append(reg[n])
@@ -936,6 +1031,7 @@ def _live_additional(wire):
 
 def run(ctx):
     batch = Batch()
+    add_probes = C11_additional.run_probes(ctx, real_build, _live_additional, sdl.doc_json, canon)     # deterministic, no ctx.rng
     run_corpus(ctx, batch)
     run_generated(ctx, batch)
     run_extend(ctx, batch)
@@ -943,14 +1039,22 @@ def run(ctx):
     run_invalid(ctx, batch)
     run_validation_rules(ctx, batch)
     run_schema_directives(ctx)
+    run_schema_directives_once(ctx)
     run_special(ctx)
     run_hand_built(ctx)
     run_source_forms(ctx)
     run_long_chains(ctx)
     C11_extend.run_lax_stream(ctx, sdl, real_extend, extension_doc, canon, diff_path, EXT_CASES)    # last consumer of ctx.rng
+    inprog = C11_inprogress.collect(ctx, real_build, sdl, sdl.doc_json, canon)      # named probes + stream: now the last consumer of ctx.rng
     run_model(ctx, batch)
     ctx.extra["documents_sent_to_model"] = len(batch.cases)
+    # the exact model of the in-progress bookkeeping: the in-progress cases, and every document of the batch as well
+    C11_inprogress.compare(ctx, inprog, canon, sort_dump, diff_path)
+    C11_inprogress.compare(ctx, [("batch", c["text"], c["items"], c["flags"], c["additional"], c["real"]) for c in batch.cases
+                                 if c["real"][0] != "rej" or c["real"][1] != "validation"],
+                           canon, sort_dump, diff_path, what="batch")
     C11_extend.run_model(ctx, probes, EXT_CASES, canon, sort_dump, diff_path)
+    C11_additional.run_model(ctx, add_probes, canon, sort_dump, diff_path)
 
 
 def replay(ctx, data):
@@ -962,8 +1066,13 @@ def replay(ctx, data):
                        and f["detail"].get("case") == inp.get("case") for f in c2.found)
     if inp.get("special") or inp.get("schema_directives"):
         c2 = type(ctx)(ctx.prop, ctx.tier, ctx.seed)
-        (run_special if inp.get("special") else run_schema_directives)(c2)
+        (run_special if inp.get("special") else (run_schema_directives_once if inp.get("label") == "schema-directives-once" else run_schema_directives))(c2)
         return not any(f["kind"] == "property" and f["detail"].get("sdl") == inp.get("sdl") for f in c2.found)
+    if "inprogress" in inp:
+        real = real_build(inp["sdl"], additional=_live_additional(inp.get("additional")), validate=False, **(inp.get("flags") or {}))
+        return real[0] != "exc" or real[1] == "internal:RecursionError"      # correspondence with the exact model only
+    if "additional_probe" in inp:
+        return C11_additional.replay(real_build, _live_additional, canon, inp)
     if "ignored_in_lax" in inp:
         real = real_extend(inp["base_sdl"], inp["ext_sdl"], inp.get("strict", True))
         if inp.get("strict", True):
